@@ -140,12 +140,27 @@ def judge_reimport(ctx, case):
         s = rb32.XKey(node.k, None, node.c, 0, 0, b"\x00" * 4).xprv(ver) if case["as_master"] else node.xprv(ver)
     else:
         s = node.xpub(ver)
+    sc = case.get("scribble")
+    if sc:
+        # a caller that builds its own lists from what the Version getters hand out, editing them in place
+        from btc_hd_wallet.wallet_utils import Version
+        try:
+            a, b = (Version.testnet_versions, Version.mainnet_versions) if sc == "test+=main" else \
+                   (Version.mainnet_versions, Version.testnet_versions) if sc == "main+=test" else \
+                   (Version.prv_versions, Version.pub_versions) if sc == "prv+=pub" else (Version.pub_versions, Version.prv_versions)
+            lst = a()
+            lst += b()
+            if case.get("scribble_clear"):
+                lst2 = b()
+                del lst2[:]
+        except Exception:  # noqa
+            pass
     try:
         w = PaperWallet.from_extended_key(extended_key=s)
     except Exception as ex:  # noqa
         return ctx.judge("reimport", False, case, "wallet", ex, cls="reimport|raised", mech="C16.reimport.raised")
     ok = bool(w.testnet) == tn and bool(w.master.testnet) == tn
-    ctx.judge("reimport", ok, case, tn, (w.testnet, w.master.testnet), cls="reimport|%s%s%d" % (typ, net, purpose), mech="C16.reimport.network_flag")
+    ctx.judge("reimport", ok, case, tn, (w.testnet, w.master.testnet), cls="reimport|%s%s%d|%s" % (typ, net, purpose, "scribbled" if sc else "plain"), mech="C16.reimport.network_flag")
     try:
         out = emit_all(w, tn, ctx.rnd, typ == "prv", 0, 0, 2)
     except Exception as ex:  # noqa
@@ -166,7 +181,9 @@ def run(ctx):
         j = j0 * ctx.nshards + ctx.shard
         L = rnd.choice([0, 0, 1, 3])
         judge_reimport(ctx, {"seed": gen.rbytes(rnd, 32), "version": vers[j % 12], "path": [rnd.randrange(0, 2 * H) for _ in range(L)],
-                             "as_master": L > 0 and rnd.random() < 0.5})
+                             "as_master": L > 0 and rnd.random() < 0.5,
+                             "scribble": rnd.choice([None, None, "test+=main", "main+=test", "prv+=pub", "pub+=prv"]),
+                             "scribble_clear": rnd.random() < 0.3})
     ctx.judge("classified_leaves", ctx.extra.get("classified_leaves", 0) > 0, {"classified": ctx.extra.get("classified_leaves", 0)},
               cls="count", mech="C16.nothing_classified")
 
